@@ -486,61 +486,80 @@ def ann(model, rep):
     cells = 0
     problems = {}
 
-    def class_node(kind):
-        decos, bases = [], []
-        if kind == 'dataclass':
-            decos = [Name('dataclass')]
-        elif kind == 'dataclasses.dataclass':
-            decos = [Attr(Name('dataclasses'), 'dataclass')]
-        elif kind == 'dataclass()':
-            decos = [Call(Name('dataclass'))]
-        elif kind == 'dataclasses.dataclass()':
-            decos = [Call(Attr(Name('dataclasses'), 'dataclass'))]
-        elif kind == 'NamedTuple':
-            bases = [Name('NamedTuple')]
-        elif kind == 'typing.NamedTuple':
-            bases = [Attr(Name('typing'), 'NamedTuple')]
-        elif kind == 'TypedDict':
-            bases = [Name('TypedDict')]
-        return Obj('ClassDef', name='C', bases=bases, keywords=[], decorator_list=decos, body=[], type_params=[])
+    # The whole transformer is run (mapper first, then RemoveAnnotations(options)(module)) on a probe module per cell; the statement carrying the
+    # marker name is then classified. Nothing about the transformer's internals (attribute names, visit methods, caches per class) is assumed.
+    from .c03 import to_obj as to_marked_obj, MAPPER
+    OPTS = T + 'remove_annotations_options.RemoveAnnotationsOptions'
+    HEADS = {
+        'class': ('class C:', True, False), 'dataclass': ('@dataclass\nclass C:', True, True), 'dataclasses.dataclass': ('@dataclasses.dataclass\nclass C:', True, True),
+        'dataclass()': ('@dataclass(frozen=True)\nclass C:', True, True), 'dataclasses.dataclass()': ('@dataclasses.dataclass()\nclass C:', True, True),
+        'NamedTuple': ('class C(NamedTuple):', True, True), 'typing.NamedTuple': ('class C(typing.NamedTuple):', True, True), 'TypedDict': ('class C(TypedDict):', True, True),
+        'function': ('def f():', False, False), 'module': (None, False, False),
+        # scopes around or before the statement that must not change how it is treated
+        'dataclass, after an inner class': ('@dataclass\nclass C:\n    class Inner(Enum):\n        A = 1', True, True),
+        'NamedTuple, after a method with a local class': ('class C(NamedTuple):\n    def m(self):\n        class L: pass\n        return L', True, True),
+        'plain class inside a dataclass': ('@dataclass\nclass Outer:\n    class C:', True, False),
+        'dataclass inside a plain class': ('class Outer:\n    @dataclass\n    class C:', True, True),
+        'function inside a dataclass': ('@dataclass\nclass Outer:\n    def f(self):', False, False),
+    }
+    NESTS = {'direct': '{S}', 'if': 'if t:\n    {S}', 'for': 'for i in it:\n    {S}', 'while': 'while t:\n    {S}', 'with': 'with w:\n    {S}', 'try': 'try:\n    {S}\nfinally:\n    pass',
+             'else': 'if t:\n    pass\nelse:\n    {S}'}
 
-    def wrap(nest, stmt, scope):
-        if nest == 'direct':
-            scope.attrs['body'] = [stmt]
-            return
-        w = {'if': lambda: Obj('If', test=Name('t'), body=[stmt], orelse=[]), 'for': lambda: Obj('For', target=Name('i', 'Store'), iter=Name('it'), body=[stmt], orelse=[]),
-             'while': lambda: Obj('While', test=Name('t'), body=[stmt], orelse=[]), 'with': lambda: Obj('With', items=[], body=[stmt]),
-             'try': lambda: Obj('Try', body=[stmt], handlers=[], orelse=[], finalbody=[]), 'else': lambda: Obj('If', test=Name('t'), body=[Obj('Pass')], orelse=[stmt])}[nest]()
-        scope.attrs['body'] = [w]
+    def sibling_depth(head):
+        # for heads that end with a finished inner block, the probe statement belongs to class C: one level inside the `class C` line
+        for l in head.split('\n'):
+            if l.lstrip().startswith('class C'):
+                return (len(l) - len(l.lstrip())) + 4
+        return 4
 
-    scopes = ['class', 'dataclass', 'dataclasses.dataclass', 'dataclass()', 'dataclasses.dataclass()', 'NamedTuple', 'typing.NamedTuple', 'TypedDict', 'function', 'module']
-    for scope_kind in scopes:
+    def run_cell(source, rv, rc):
+        tree = ast.parse(source)
+        markers = {}
+        mod_obj = to_marked_obj(tree, markers)
+        set_parents(mod_obj)
+        I = Interp(model, mod, hooks_for_transform(), version=(3, 12, 0), max_depth=400)
+        I.MAX_PATHS = 8
+
+        def thunk():
+            I.call_function(MAPPER + '.add_namespace', [mod_obj])
+            opts = I.construct(ClassRef('RemoveAnnotationsOptions', OPTS), [], dict(remove_variable_annotations=rv, remove_return_annotations=False, remove_argument_annotations=False,
+                                                                                   remove_class_attribute_annotations=rc))
+            t = I.construct(ClassRef('RemoveAnnotations', tq), [opts], {})
+            return I.call_method(tq, '__call__', t, [mod_obj])
+        res = I.explore(thunk)
+        if len(res) != 1 or res[0][0][0] != 'return':
+            raise AnalysisError('UNDECIDED: RemoveAnnotations on %r -> %s %s' % (source[:60], [r[0] for r in res][:2], res[0][2][:3]))
+        out = res[0][0][1] if isinstance(res[0][0][1], Obj) else mod_obj
+        for o in walk(out):
+            if o.cls == 'AnnAssign' and isinstance(o.attrs.get('target'), Obj) and o.attrs['target'].attrs.get('id') == 'm_x':
+                a = o.attrs.get('annotation')
+                if isinstance(a, Obj) and a.cls == 'Name' and a.attrs.get('id') == 'int':
+                    return 'kept'
+                if isinstance(a, Obj) and a.cls == 'Constant' and a.attrs.get('value') == 0:
+                    return 'zero'
+                return 'other annotation %r' % (a,)
+            if o.cls == 'Assign' and any(isinstance(t_, Obj) and t_.attrs.get('id') == 'm_x' for t_ in o.attrs.get('targets', [])):
+                return 'assign'
+        return 'removed'
+
+    for scope_kind in sorted(HEADS):
+        head, is_class, protected = HEADS[scope_kind]
         for nest in ('direct', 'if', 'for', 'while', 'with', 'try', 'else'):
+            if ' ' in scope_kind and nest not in ('direct', 'if'):
+                continue
             for has_value in (True, False):
+                stmt = 'm_x: int = 1' if has_value else 'm_x: int'
+                body = NESTS[nest].replace('{S}', stmt)
+                if head is None:
+                    source = body + '\n'
+                else:
+                    last = head.split('\n')[-1]
+                    depth = (len(last) - len(last.lstrip())) + 4 if last.rstrip().endswith(':') and not (scope_kind.startswith('dataclass, after') or scope_kind.startswith('NamedTuple, after')) else sibling_depth(head)
+                    source = head + '\n' + '\n'.join(' ' * depth + l for l in body.split('\n')) + '\n'
                 for rv in (True, False):
                     for rc in (True, False):
-                        target = Name('x', 'Store')
-                        value = Const(1) if has_value else None
-                        annotation = Name('int')
-                        stmt = Obj('AnnAssign', target=target, annotation=annotation, value=value, simple=1)
-                        if scope_kind == 'function':
-                            scope = Obj('FunctionDef', name='f', body=[], decorator_list=[])
-                        elif scope_kind == 'module':
-                            scope = Obj('Module', body=[])
-                        else:
-                            scope = class_node(scope_kind)
-                        wrap(nest, stmt, scope)
-                        set_parents(scope)
-                        for n_ in walk(scope):
-                            n_.attrs['namespace'] = scope   # O5: every nested statement form binds in the enclosing class/function/module scope
-                        opts = Obj('RemoveAnnotationsOptions', closed=True, remove_variable_annotations=rv, remove_return_annotations=False, remove_argument_annotations=False,
-                                   remove_class_attribute_annotations=rc)
-                        so = Obj('RemoveAnnotations', _options=opts)
-                        I = Interp(model, mod, hooks_for_transform(), version=(3, 12, 0))
-                        res = I.explore(lambda: I.call_method(tq, 'visit_AnnAssign', so, [stmt]))
+                        got = run_cell(source, rv, rc)
                         cells += 1
-                        is_class = scope_kind not in ('function', 'module')
-                        protected = scope_kind not in ('class', 'function', 'module')
                         selected = rc if is_class else rv
                         if not selected or protected:
                             want = 'kept'
@@ -548,21 +567,8 @@ def ann(model, rep):
                             want = 'assign'
                         else:
                             want = 'zero'
-                        for (o, ev, unk) in res:
-                            if o[0] != 'return' or o[1] is TOP:
-                                raise AnalysisError('UNDECIDED: visit_AnnAssign(%s/%s) -> %s %s' % (scope_kind, nest, o, unk[:3]))
-                            r = o[1]
-                            if r is stmt and stmt.attrs['annotation'] is annotation:
-                                got = 'kept'
-                            elif r is stmt and isinstance(stmt.attrs['annotation'], Obj) and stmt.attrs['annotation'].cls == 'Constant' and stmt.attrs['annotation'].attrs.get('value') == 0:
-                                got = 'zero'
-                            elif isinstance(r, Obj) and r.cls == 'Assign' and r.attrs.get('targets') == [target] and r.attrs.get('value') is value:
-                                got = 'assign'
-                            else:
-                                got = 'other:%r' % (r,)
-                            if got != want:
-                                k = (scope_kind, nest)
-                                problems.setdefault(k, []).append('value=%s var_opt=%s class_opt=%s: %s, expected %s' % (has_value, rv, rc, got, want))
+                        if got != want:
+                            problems.setdefault((scope_kind, nest), []).append('value=%s var_opt=%s class_opt=%s: %s, expected %s' % (has_value, rv, rc, got, want))
     rep.count('annassign_cells', cells)
     by_nest = {}
     for (scope_kind, nest), ps in problems.items():
@@ -571,7 +577,7 @@ def ann(model, rep):
         for (kind, scope_kind), items in sorted(by_nest.items()):
             nests = sorted(n for n, _ in items)
             rep.violation('C05.ANN', va.loc(), 'annotated assignment %s in a %s body%s' % (kind, scope_kind, ' (under %s)' % '/'.join(nests) if kind == 'nested' else ''),
-                          '%s' % items[0][1][0] + ' -- the scope of the statement is decided from its syntactic parent, but an annotated name under if/for/while/with/try still belongs to the enclosing class/function',
+                          '%s' % items[0][1][0] + ' -- what happens to an annotated assignment must depend only on the options and on the class/function/module it belongs to (fields of dataclass / NamedTuple / TypedDict classes are never touched)',
                           key='C05.ANN|%s|%s' % (kind, scope_kind))
     else:
         rep.ok('C05.ANN', va.loc(), 'visit_AnnAssign on %d (scope x nesting x value x options) cells' % cells, 'kept / assignment / `x: 0` exactly as documented', cells=cells, key='C05.ANN|annassign')
